@@ -20,6 +20,10 @@ pub struct RunResult {
 pub fn sim_config(sc: &Scenario) -> SimConfig {
     let mut cfg = SimConfig::default();
     cfg.switch_permille = sc.knobs.switch_permille;
+    cfg.pct_depth = sc.knobs.pct_depth;
+    if sc.knobs.pct_span > 0 {
+        cfg.pct_span = sc.knobs.pct_span;
+    }
     if sc.knobs.max_steps > 0 {
         cfg.max_steps = sc.knobs.max_steps;
     }
